@@ -476,7 +476,8 @@ def rule_reset(ctx, repo):
     for n in walk_noscope(i_.fn):
         if isinstance(n, ast.Assign) and dotted(n.targets[0]) == "self._array_and_counter" and isinstance(n.value, ast.Dict):
             tab = sorted({v.value for v in n.value.values})
-        m = Q.match("self.t = np.array($v, dtype=float)", n) if isinstance(n, ast.Assign) else None
+        m = (Q.match("self.t = np.array($v, dtype=float)", n) or Q.match("self.t = np.array($v)", n) or Q.match("self.t = np.array($v, dtype=$d)", n)) \
+            if isinstance(n, ast.Assign) else None
         if m:
             t0 = src(m["v"])
     if tab is None or t0 is None:
